@@ -193,3 +193,7 @@ def run(prog, rep, tier, cfg):
         if w:
             X.value_from('K10', 'market:last_cron-advanced', g, w, ['C:Runtime::curr_epoch'], 'last_cron := current epoch', copy=True)
             rep.need('K7', 'market:last_cron-on-success', not g.ok_returns_from([0], blocked={b for (b, _a) in w}), 'every successful tick records it ran', X.loc(g))
+    # ---- early terminations are drained completely (rows shared with C15)
+    import props.c15 as c15
+    c15.early_termination_drain(prog, rep, X, prefix='cron:')
+
